@@ -49,6 +49,24 @@ theorem O_mapE_comp {β γ δ : Type} (k1 : β → Except IErr γ) (k2 : β → 
         simp only [O_ok, Option.map_some, Option.bind_some, O_mapE_cons]
         try (cases f z <;> simp)
 
+/-- the same, with the factorisation required on the elements of the list only -/
+theorem O_mapE_comp_mem {β γ δ : Type} (k1 : β → Except IErr γ) (k2 : β → Except IErr δ) (f : δ → Except IErr γ)
+    (l : List β) (h : ∀ a ∈ l, O (k1 a) = O (k2 a >>= f)) :
+    O (mapE k1 l) = O (mapE k2 l >>= mapE f) := by
+  induction l with
+  | nil => rfl
+  | cons a l ih =>
+    rw [O_mapE_cons, h a (by simp), ih (fun b hb => h b (by simp [hb])), O_bind, O_bind, O_bind, O_mapE_cons]
+    cases hk : k2 a with
+    | error e => simp
+    | ok z =>
+      simp only [O_ok, Option.bind_some]
+      cases hl : mapE k2 l with
+      | error e => cases f z <;> simp
+      | ok zs =>
+        simp only [O_ok, Option.map_some, Option.bind_some, O_mapE_cons]
+        try (cases f z <;> simp)
+
 theorem mapE_ok_cons {β γ : Type} (f : β → Except IErr γ) (a : β) (l : List β) (xs : List γ) (h : mapE f (a :: l) = .ok xs) :
     ∃ y ys, f a = .ok y ∧ mapE f l = .ok ys ∧ xs = y :: ys := by
   simp only [mapE] at h
@@ -404,5 +422,73 @@ theorem unrollList_flat (env : Env) : (es es' : List ME) → unrollList env es =
         simp [he, hes] at h; subst h
         simp [ME.flatList, unroll_flat env e x he, unrollList_flat env es xs hes]
 end
+
+/-! ### the size of an expansion is the product of the sizes of its iteration sets -/
+
+theorem rows_length_of_count (src : Src) (n : Nat) (hc : src.count? = some n) (env : Env) (rows : List (List Int))
+    (h : src.rows env = .ok rows) : rows.length = n := by
+  cases src with
+  | range lo hi inc =>
+    cases lo <;> cases hi <;> simp [Src.count?] at hc
+    subst hc
+    simp [Src.rows, CE.eval] at h
+    subst h; simp
+  | arr xs => simp [Src.count?] at hc; simp [Src.rows] at h; subst h hc; simp
+  | enumArr xs =>
+    simp [Src.count?] at hc; simp [Src.rows] at h; subst h hc
+    simp only [List.length_map]
+    unfold enumerate; generalize 0 = s0
+    induction xs generalizing s0 with
+    | nil => rfl
+    | cons x xs ih => simp [enumerateFrom, ih]
+  | zip2 xs ys => simp [Src.count?] at hc; simp [Src.rows] at h; subst h hc; rfl
+
+theorem flatten_length_const {β : Type} (parts : List (List β)) (k : Nat) (h : ∀ p ∈ parts, p.length = k) :
+    parts.flatten.length = parts.length * k := by
+  induction parts with
+  | nil => simp
+  | cons p ps ih =>
+    simp only [List.flatten_cons, List.length_append, List.length_cons]
+    rw [h p (by simp), ih (fun q hq => h q (by simp [hq]))]
+    rw [Nat.succ_mul]; omega
+
+/-- **output size**: when the iteration sets do not depend on outer variables, the number of leaf
+expansions (terms of a `sum`, rows of a quantified constraint, declared variables) is exactly the
+product of their sizes — the only quantity the size of the compiled model grows with. -/
+theorem envs_length_prod (its : List It) (P : Nat) (hP : iterProduct its = some P) (env : Env) (es : List Env)
+    (h : envs its env = .ok es) : es.length = P := by
+  induction its generalizing env es P with
+  | nil => simp [iterProduct] at hP; simp [envs] at h; subst h hP; rfl
+  | cons it rest ih =>
+    simp only [iterProduct] at hP
+    cases hn : it.src.count? with
+    | none => simp [hn] at hP
+    | some n =>
+      cases hm : iterProduct rest with
+      | none => simp [hn, hm] at hP
+      | some m =>
+        simp [hn, hm] at hP; subst hP
+        simp only [envs] at h
+        split at h
+        · simp [throw, throwThe, MonadExceptOf.throw] at h
+        · cases hd : declareAll env it.vars with
+          | error e => simp [hd] at h
+          | ok u =>
+            cases hr : it.src.rows env with
+            | error e => simp [hd, hr] at h
+            | ok rows =>
+              simp only [hd, hr, ok_bind] at h
+              cases hp : mapE (fun row => do envs rest (← bindRow env it.vars row)) rows with
+              | error e => simp [hp] at h
+              | ok parts =>
+                simp [hp] at h; subst h
+                have hlen := mapE_length _ _ _ hp
+                have hall : ∀ p ∈ parts, p.length = m := by
+                  apply mapE_forall _ (fun p => p.length = m) _ rows parts hp
+                  intro row p hrow
+                  cases hb : bindRow env it.vars row with
+                  | error e => simp [hb] at hrow
+                  | ok env' => simp [hb] at hrow; exact ih m hm env' p hrow
+                rw [flatten_length_const parts m hall, hlen, rows_length_of_count it.src n hn env rows hr]
 
 end Rooc.Proofs.Iter
